@@ -3604,6 +3604,15 @@ handle_request(coap_context_t *context, coap_session_t *session, coap_pdu_t *pdu
                                /* context is being freed off */
                                goto finish);
   }
+#if COAP_ASYNC_SUPPORT
+  if (!async && oscore_protected) {
+    /* remember it for the delayed invocation of a request deferred just now */
+    coap_async_t *deferred = coap_find_async_lkd(session, pdu->actual_token);
+
+    if (deferred)
+      deferred->oscore_protected = 1;
+  }
+#endif /* COAP_ASYNC_SUPPORT */
 
   /* The body has been passed on: the transfer is over whatever the handler did */
   if (free_lg_srcv) {
@@ -4569,8 +4578,9 @@ coap_check_async(coap_context_t *context, coap_tick_t now) {
   LL_FOREACH_SAFE(context->async_state, async, tmp) {
     if (async->delay != 0 && async->delay <= now) {
       /* Send off the request to the application */
-      /* (an OSCORE only resource has seen the request was protected first time) */
-      handle_request(context, async->session, async->pdu, 1);
+      /* (the resource found now need not be the one found first time) */
+      handle_request(context, async->session, async->pdu,
+                     async->oscore_protected);
 
       /* Remove this async entry as it has now fired */
       coap_free_async_lkd(async->session, async);
